@@ -1727,7 +1727,7 @@ class Engine:
             if h is not None:
                 return NativeFn(f"number.{name}", lambda *a, **k: h(self, o, *a, **k))
         if is_obj(o):
-            self.attr_reads.add((str(o), name))          # which attributes of opaque objects the code reads (frame obligations)
+            self.attr_reads.add((_short_name(o), name))   # which attributes of opaque objects the code reads (frame obligations)
             ov = self.path.__dict__.get("opaque_attrs", {}).get((o.get_id(), name))
             if ov is not None:
                 return ov
@@ -2395,6 +2395,18 @@ def _or(cs):
 
 def _and2(a, b):
     return _and([a, b])
+
+
+def _short_name(o, depth=0):
+    """cheap printable name of an opaque object term: constants and attr:x(...) chains only (never prints a large term)"""
+    try:
+        if o.num_args() == 0:
+            return o.decl().name()
+        if depth < 3 and o.num_args() == 1 and o.decl().name().startswith("attr:"):
+            return f"{o.decl().name()}({_short_name(o.arg(0), depth + 1)})"
+    except Exception:
+        pass
+    return "<term>"
 
 
 def _contains_sym(v, depth=0):
